@@ -151,6 +151,18 @@ Theorem c09_resend_abandoned_refuted :
 Proof. exact resend_abandoned_refuted. Qed.
 Print Assumptions c09_resend_abandoned_refuted.
 
+(* the configuration set with SetConfig: with the repaired SendTo the first send that gets through
+   carries it; the pinned SendTo loses it after one failed send (noted beside the property:
+   the message itself does reach the restarted peer) *)
+Theorem c09_config_reaches_fixed : forall earlier,
+  Forall (fun r => r = RErr) earlier -> carries_config true earlier = true.
+Proof. exact config_reaches_fixed. Qed.
+Print Assumptions c09_config_reaches_fixed.
+
+Theorem c09_config_lost_refuted : carries_config false [RErr] = false.
+Proof. exact config_lost_refuted. Qed.
+Print Assumptions c09_config_lost_refuted.
+
 (* ---- classifier ---------------------------------------------------------------------------------------- *)
 
 Theorem c09_classifier_total : forall c,
